@@ -219,15 +219,16 @@ Definition reserved_name (id : Z) : string := ("_RESERVED_" ++ dec6 id)%string.
 Definition set_poff (p : pfield) (o : Z) : pfield :=
   mkPF (pf_name p) (pf_ty p) (pf_kind p) (pf_len p) (pf_esize p) (pf_align p) o.
 
-(* read the padded Layout field list back into parser Fields (padding_k_ : char[..]) *)
+(* read the padded Layout field list back into parser Fields (padding_k_ : char[..]); the user fields keep
+   their order, so they are taken from the declaration list one by one *)
 Fixpoint rebuild (orig : list pfield) (out : list field) (npad : Z) : list pfield :=
   match out with
   | [] => []
   | f :: r =>
     if is_pad f then mkPF (pad_name npad) "char" FNat (f_len f) 1 1 (f_off f) :: rebuild orig r (npad + 1)
-    else match nth_error orig (Z.to_nat (f_id f)) with
-         | Some p => set_poff p (f_off f) :: rebuild orig r npad
-         | None => rebuild orig r npad
+    else match orig with
+         | p :: orig' => set_poff p (f_off f) :: rebuild orig' r npad
+         | [] => []
          end
   end.
 
@@ -303,6 +304,14 @@ Definition item_name (i : item) : option string :=
   | IHid _ _ | IMid _ _ | IReserved _ => None
   end.
 
+(* add_fields + validate_msg_def on the current registries *)
+Definition define (ap : bool) (st : pstate) (b : body) : pres (list pfield * Z * Z) :=
+  match resolve_body (ps_consts st) (ps_aliases st) (ps_structs st) (ps_msgs st) b with
+  | POk ps => finish_def ap ps
+  | PReject k => PReject k
+  | PCrash k => PCrash k
+  end.
+
 Definition contrib (ap : bool) (st : pstate) (i : item) : pres delta :=
   match i with
   | IConst n e => match ceval (ps_consts st) e with Some v => POk (DConst (n, v)) | None => PReject RExpand end
@@ -314,20 +323,14 @@ Definition contrib (ap : bool) (st : pstate) (i : item) : pres delta :=
   | IHid n v => POk (DHid (n, v))
   | IMid n v => POk (DMid (n, v))
   | IStruct n b =>
-    match resolve_body (ps_consts st) (ps_aliases st) (ps_structs st) (ps_msgs st) b with
-    | POk ps => match finish_def ap ps with
-                | POk (ps', sz, a) => POk (DStruct (mkPD n None ps' sz a (Some b)))
-                | PReject k => PReject k | PCrash k => PCrash k
-                end
+    match define ap st b with
+    | POk (ps', sz, a) => POk (DStruct (mkPD n None ps' sz a (Some b)))
     | PReject k => PReject k | PCrash k => PCrash k
     end
   | IMsg n id None => POk (DMsg [(n, id)] [mkPD n (Some id) [] 0 8 None])
   | IMsg n id (Some b) =>
-    match resolve_body (ps_consts st) (ps_aliases st) (ps_structs st) (ps_msgs st) b with
-    | POk ps => match finish_def ap ps with
-                | POk (ps', sz, a) => POk (DMsg [(n, id)] [mkPD n (Some id) ps' sz a (Some b)])
-                | PReject k => PReject k | PCrash k => PCrash k
-                end
+    match define ap st b with
+    | POk (ps', sz, a) => POk (DMsg [(n, id)] [mkPD n (Some id) ps' sz a (Some b)])
     | PReject k => PReject k | PCrash k => PCrash k
     end
   | IReserved ids => POk (DMsg (map (fun id => (reserved_name id, id)) ids)
@@ -461,47 +464,48 @@ Inductive jsval := JPrim (isstr : bool) | JObj (id : Z) (fs : list (string * jsv
 Inductive jres (A : Type) := JOk (a : A) | JErr.
 Arguments JOk {A} a. Arguments JErr {A}.
 
-Section JS.
-  Variable st : pstate.
-  Definition js_prim (key : string) : jres jsval :=
-    match tlookup key js_types with Some (_, k) => JOk (JPrim (k =? 3)) | None => JErr end.
+(* the fields of one object literal, evaluated left to right; [call] evaluates a callee *)
+Fixpoint js_fields (call : jcallee -> Z -> jres (jsval * Z)) (ps : list pfield) (cnt : Z)
+  : jres (list (string * jsval) * Z) :=
+  match ps with
+  | [] => JOk ([], cnt)
+  | p :: r =>
+    let v := match js_form p with
+             | JScalar c' => call c' cnt
+             | JString _ => JOk (JPrim true, cnt)
+             | JFill n c' => match call c' cnt with
+                             | JOk (v, cnt') => JOk (JArr cnt' n v, cnt' + 1)
+                             | JErr => JErr
+                             end
+             end in
+    match v with
+    | JOk (v, cnt') => match js_fields call r cnt' with JOk (fs, c2) => JOk ((pf_name p, v) :: fs, c2) | JErr => JErr end
+    | JErr => JErr
+    end
+  end.
 
-  Fixpoint js_call (fuel : nat) (c : jcallee) (cnt : Z) : jres (jsval * Z) :=
-    match fuel with
-    | O => JErr
-    | S k =>
-      let obj (d : pdef) :=
-        (fix go (ps : list pfield) (cnt : Z) : jres (list (string * jsval) * Z) :=
-           match ps with
-           | [] => JOk ([], cnt)
-           | p :: r =>
-             let v := match js_form p with
-                      | JScalar c' => js_call k c' cnt
-                      | JString _ => JOk (JPrim true, cnt)
-                      | JFill n c' => match js_call k c' cnt with
-                                      | JOk (v, cnt') => JOk (JArr cnt' n v, cnt' + 1)
-                                      | JErr => JErr
-                                      end
-                      end in
-             match v with
-             | JOk (v, cnt') => match go r cnt' with JOk (fs, c2) => JOk ((pf_name p, v) :: fs, c2) | JErr => JErr end
-             | JErr => JErr
-             end
-           end) (pd_fields d) (cnt + 1) in
-      match c with
-      | JTypeMap key => match js_prim key with JOk v => JOk (v, cnt) | JErr => JErr end
-      | JAliasV _ => JErr                       (* RTMA.aliases.X is a value (or undefined), not a function *)
-      | JSdf n => match find_def n (ps_structs st) with
-                  | Some d => match obj d with JOk (fs, c2) => JOk (JObj cnt fs, c2) | JErr => JErr end
-                  | None => JErr
-                  end
-      | JMdf n => match find_def n (ps_msgs st) with
-                  | Some d => match obj d with JOk (fs, c2) => JOk (JObj cnt fs, c2) | JErr => JErr end
-                  | None => JErr
-                  end
-      end
-    end.
-End JS.
+Definition js_prim (key : string) : jres jsval :=
+  match tlookup key js_types with Some (_, k) => JOk (JPrim (k =? 3)) | None => JErr end.
+
+Fixpoint js_call (st : pstate) (fuel : nat) (c : jcallee) (cnt : Z) : jres (jsval * Z) :=
+  match fuel with
+  | O => JErr
+  | S k =>
+    match c with
+    | JTypeMap key => match js_prim key with JOk v => JOk (v, cnt) | JErr => JErr end
+    | JAliasV _ => JErr                       (* RTMA.aliases.X is a value (or undefined), not a function *)
+    | JSdf n => match find_def n (ps_structs st) with
+                | Some d => match js_fields (js_call st k) (pd_fields d) (cnt + 1) with
+                            | JOk (fs, c2) => JOk (JObj cnt fs, c2) | JErr => JErr end
+                | None => JErr
+                end
+    | JMdf n => match find_def n (ps_msgs st) with
+                | Some d => match js_fields (js_call st k) (pd_fields d) (cnt + 1) with
+                            | JOk (fs, c2) => JOk (JObj cnt fs, c2) | JErr => JErr end
+                | None => JErr
+                end
+    end
+  end.
 
 Fixpoint jrepeat {A} (n : nat) (l : list A) : list A := match n with O => [] | S k => l ++ jrepeat k l end.
 Fixpoint obj_ids (v : jsval) : list Z :=
